@@ -58,6 +58,7 @@ type Check struct {
 	Quick       TierCfg  `json:"quick"`
 	Thorough    TierCfg  `json:"thorough"`
 	MinBudget   int      `json:"min_budget"` // max replays spent minimising one signature
+	SoloRuns    int      `json:"solo_runs"`  // runs re-executed alone in a fresh process; their Extra["solo_digest"] must equal what they reported inside their batch
 	Also        []string `json:"also"`       // further check configurations (ids in checks.json) that belong to the same property: run after the main one, reported under this id, coverage merged
 }
 
@@ -103,6 +104,9 @@ type Replay struct {
 	// BatchFrom >= 0: the violation depends on state left in the process by the preceding runs of its
 	// batch (runs BatchFrom..Run executed in one process, in order); replay re-executes that range.
 	BatchFrom *uint64 `json:"batch_from,omitempty"`
+	// SoloCheck: the violation is a difference between what run Run reports (Outcome.Extra["solo_digest"]) when it
+	// executes after runs BatchFrom..Run-1 in one process and when it executes alone in a fresh process.
+	SoloCheck bool `json:"solo_check,omitempty"`
 }
 
 type Finding struct {
@@ -584,6 +588,23 @@ func cmdReplay(args []string) int {
 		defer os.RemoveAll(work)
 	}
 	var rec *Record
+	if rp.SoloCheck && rp.BatchFrom != nil {
+		inBatch, err1 := replayRange(bin, rp.Seed, *rp.BatchFrom, rp.Run, rp.Tier, rp.Params, filepath.Join(work, "rp"), 900)
+		alone, err2 := replayRange(bin, rp.Seed, rp.Run, rp.Run, rp.Tier, rp.Params, filepath.Join(work, "rp"), 900)
+		if err1 != nil || err2 != nil {
+			fmt.Fprintf(os.Stderr, "verif: %v %v\n", err1, err2)
+			os.RemoveAll(work)
+			return 2
+		}
+		a, b := inBatch.Outcome.Extra["solo_digest"], alone.Outcome.Extra["solo_digest"]
+		if a != b {
+			fmt.Printf("REPRODUCED property=%s signature=%s\nrun %d after runs %d..%d in one process: %s\nrun %d alone in a fresh process: %s\n%s\n%s\n", rp.Property, rp.Signature,
+				rp.Run, *rp.BatchFrom, rp.Run-1, a, rp.Run, b, inBatch.Outcome.Extra["solo_text"], alone.Outcome.Extra["solo_text"])
+			return 1
+		}
+		fmt.Printf("NOT-REPRODUCED property=%s signature=%s (digest %s both ways)\n", rp.Property, rp.Signature, a)
+		return 0
+	}
 	if rp.BatchFrom != nil {
 		rec, err = replayRange(bin, rp.Seed, *rp.BatchFrom, rp.Run, rp.Tier, rp.Params, filepath.Join(work, "rp"), 900)
 	} else {
@@ -879,6 +900,83 @@ func cmdCheck(args []string) int {
 			sig, firstLines(min.Detail, 12), len(bySig[sig]), len(recs), n0, n1, nz1, tests)
 		fmt.Printf("VIOLATION property=%s replay=%s\n", repID, path)
 		exit = 1
+	}
+
+	// history independence: what a run reports must not depend on the runs executed before it in the same process
+	soloChecked, soloDiffer := 0, 0
+	if c.SoloRuns > 0 {
+		soloSig := id + "/result-depends-on-earlier-runs-in-the-process"
+		var cand []*Record
+		for bi := len(jobs) - 1; bi >= 0 && len(cand) < c.SoloRuns; bi-- {
+			// the last clean run of each batch has the longest history behind it
+			for i := len(recs) - 1; i >= 0; i-- {
+				r := &recs[i]
+				if r.Run >= jobs[bi].lo+1 && r.Run < jobs[bi].hi && len(r.Outcome.Violations) == 0 && r.Outcome.Extra["solo_digest"] != "" {
+					cand = append(cand, r)
+					break
+				}
+			}
+		}
+		type soloRes struct {
+			rec *Record
+			err error
+		}
+		sres := make([]soloRes, len(cand))
+		var swg sync.WaitGroup
+		for i, r := range cand {
+			swg.Add(1)
+			go func(i int, r *Record) {
+				defer swg.Done()
+				rec, err := replayRange(bin, r.Seed, r.Run, r.Run, *tier, tc.Params, filepath.Join(work, fmt.Sprintf("solo-%d", i)), 900)
+				sres[i] = soloRes{rec, err}
+			}(i, r)
+		}
+		swg.Wait()
+		reported := false
+		for i, r := range cand {
+			if sres[i].err != nil {
+				fmt.Fprintf(os.Stderr, "verif: solo re-run of run %d failed: %v\n", r.Run, sres[i].err)
+				os.RemoveAll(work)
+				return 2
+			}
+			soloChecked++
+			a, b := r.Outcome.Extra["solo_digest"], sres[i].rec.Outcome.Extra["solo_digest"]
+			if a == b {
+				continue
+			}
+			soloDiffer++
+			if reported {
+				continue
+			}
+			// confirm once more both ways (a harness that is not a function of its tapes must not become a verdict)
+			lo := (r.Run / uint64(tc.Batch)) * uint64(tc.Batch)
+			again, err1 := replayRange(bin, r.Seed, lo, r.Run, *tier, tc.Params, filepath.Join(work, "solo-confirm"), 900)
+			alone2, err2 := replayRange(bin, r.Seed, r.Run, r.Run, *tier, tc.Params, filepath.Join(work, "solo-confirm"), 900)
+			if err1 != nil || err2 != nil || again.Outcome.Extra["solo_digest"] != a || alone2.Outcome.Extra["solo_digest"] != b {
+				fmt.Fprintf(os.Stderr, "verif: run %d: digest in batch %q vs alone %q did not repeat (harness nondeterminism) — no verdict\n", r.Run, a, b)
+				os.RemoveAll(work)
+				return 2
+			}
+			reported = true
+			if f, ok := knownSig[soloSig]; ok {
+				knownHit[soloSig]++
+				fmt.Printf("KNOWN-FINDING: property=%s %s — %s\n", repID, soloSig, f.What)
+				continue
+			}
+			detail := fmt.Sprintf("run %d reports %s when it executes after runs %d..%d in one process and %s when it executes alone in a fresh process: an earlier simulation left state behind that changes a later one\n--- in the batch\n%s\n--- alone\n%s",
+				r.Run, a, lo, r.Run-1, b, r.Outcome.Extra["solo_text"], sres[i].rec.Outcome.Extra["solo_text"])
+			base := Replay{Property: id, Seed: r.Seed, Run: r.Run, Tier: *tier, Signature: soloSig, Detail: detail, Tapes: r.Tapes, Params: tc.Params, BatchFrom: &lo, SoloCheck: true}
+			path := filepath.Join(verifDir, "replays", fmt.Sprintf("%s-%d-%d-%s.json", id, r.Seed, r.Run, sigHash(soloSig)))
+			b2, _ := json.MarshalIndent(base, "", " ")
+			os.WriteFile(path, b2, 0o644)
+			fmt.Printf("violation: %s\n  %s\n", soloSig, firstLines(detail, 14))
+			fmt.Printf("VIOLATION property=%s replay=%s\n", repID, path)
+			newSigs = append(newSigs, soloSig)
+			nViol++
+			exit = 1
+		}
+		counters["solo-reruns"] += soloChecked
+		counters["solo-reruns-differing"] += soloDiffer
 	}
 
 	// further configurations of the same property
